@@ -15,6 +15,7 @@ def main(tier, seed):
     items += fam_tt.footprint_family()
     items += fam_tt.template_family(seed, tier, only=fam_tt.SCOPE_TEMPLATES)
     items += fam_tt.template_family(seed, tier)[::4 if quick else 1]
+    items += families.generated(seed + 8, 30 if quick else 600, feat={'tt': 0.7}, inputs=2, family='gentt8')     # arrays inside tries, handlers, defeat functions
     items += families.upstream_corpus(skip_tests=('stack_overflow', 'early_stack'))[:0 if quick else 100]
     return rt.standard(PROP, tier, seed, items,
                        'random programs with arrays (literal, dynamic with loop-varying length, passed, aliased) at every depth of '
